@@ -761,6 +761,17 @@ def clear_reinit(ctx, rid):
              "clear() re-initialises through %s.__init__() on every path" % sn if ok else
              "clear() does not re-run %s.__init__() on every path: the caches of the other parent classes (label mapping, "
              "next label) survive the clear and describe the old model" % sn)
+    # ... and the terms themselves are emptied through the dict's clear on every path (dict.__init__() with no arguments
+    # leaves the items in place)
+    raw = [n for n in g.stmts() if isinstance(n, ast.Expr) and isinstance(n.value, ast.Call) and isinstance(n.value.func, ast.Attribute)
+           and n.value.func.attr == 'clear' and (
+               (isinstance(n.value.func.value, ast.Call) and is_name(n.value.func.value.func, 'super')) or
+               (is_name(n.value.func.value, 'dict') and n.value.args and is_name(n.value.args[0], sn)))]
+    okr = bool(raw) and g.must_pass_to_exit(ENTRY, set(raw))
+    ctx.inst(rid, cl, raw[0] if raw else 'def clear', okr,
+             "the terms are emptied by the dict's own clear on every path" if okr else
+             "clear() does not empty the terms through super().clear() on every path: re-running __init__() does not remove "
+             "the items of a dict, so the model keeps its terms while its caches say it is empty")
 
 
 def registration_parity(ctx, rid):
